@@ -221,8 +221,11 @@ theorem admitted_not_expired_not_far_future (rulesAt : Int → Rules) (tx : Tx) 
 
 /-- Where the code and the mathematical statement part ways: when `ts + window` overflows
 `int64` the bound wraps to a negative number and every non-expired expiry is rejected as
-"too far in the future" (here `ts = 2^63 - 1000`, `window = 1000`, `expiry = ts`); the harness
-probes this on the real code. The property is therefore claimed only under `NoWrap`. -/
+"too far in the future" (here `ts = expiry = 2^63 - 808`, a whole second, `window = 1000`); the
+harness probes this on the real code. The exact iff `preexecute_ok_iff_nowrap` is therefore
+stated under `NoWrap`; on the reachable domain (`ts ≥ 0`, `window ≥ 0`) the interval clause holds
+for everything that passes even without it (`preexecute_ok_sound_nonneg`: overflow is
+fail-closed there). -/
 theorem wrap_overflow_witness :
     verifyTimestamp (2 ^ 63 - 808) (2 ^ 63 - 808) divisor 1000 = .future ∧
     ¬ NoWrap (2 ^ 63 - 808) 1000 ∧
